@@ -256,7 +256,7 @@ func c03Routing(c *Ctx, p *Prog, m *Model) {
 	// reader/writer agreement
 	for _, fn := range p.RepoFuncs() {
 		for _, gs := range globalStores(fn) {
-			if gs.G != errG || nm(fn) == "init" {
+			if gs.G != errG || p.startupOnly(fn) {
 				continue
 			}
 			key := "errdev-writer:" + shortName(fn)
